@@ -307,7 +307,8 @@ def check_C14(ctx):
             if rng.random() < 0.6:
                 c["policy"] = rng.choice([0, 1, 2])
             c["longdesc"] = rng.choice(["", "long description of " + c["name"].split()[0]])
-        version = {"name": "V version", "text": "v1.2"} if rng.random() < 0.5 else None
+        # the version flag is declared before or after the root's own options
+        version = {"name": "V version", "text": "v1.2", "last": rng.random() < 0.5} if rng.random() < 0.5 else None
         argv = flat_argv(path, per_level)
         # a help token after a "--" inside one level's own arguments is ordinary data
         if rng.random() < 0.5:
